@@ -581,3 +581,215 @@ func genSoak(out *bufio.Writer, rng *rand.Rand) int {
 	c.end()
 	return 1
 }
+
+// genRespawnStorm (api): a tiny cycle limit and a process limit far above it; the battle is
+// decided again and again by the single-survivor rule in the middle of a cycle, the dead warrior
+// is respawned without Reset (the same cycle is then run again), the survivor splits on every
+// turn — its queue grows faster than one task per counted cycle
+func genRespawnStorm(out *bufio.Writer, rng *rand.Rand, tag string, count int) int {
+	for n := 0; n < count; n++ {
+		m := uint64(20 + rng.Intn(60))
+		cfg := gmars.SimulatorConfig{Mode: gmars.ICWS94, CoreSize: gmars.Address(m), Processes: gmars.Address(20 + rng.Intn(200)),
+			Cycles: gmars.Address(2 + rng.Intn(6)), ReadLimit: gmars.Address(m), WriteLimit: gmars.Address(m), Length: 1, Distance: 1}
+		c := newAPICase(out, fmt.Sprintf("rs%d", n), tag, cfg, false)
+		var spl []gmars.Instruction
+		for i := 0; i < 8+rng.Intn(8); i++ {
+			spl = append(spl, ins(gmars.SPL, gmars.B, gmars.DIRECT, uint64(1+rng.Intn(2)), gmars.DIRECT, 0))
+		}
+		spl = append(spl, ins(gmars.JMP, gmars.B, gmars.DIRECT, m-uint64(len(spl)), gmars.DIRECT, 0))
+		survivor := gmars.WarriorData{Code: spl}
+		victim := gmars.WarriorData{Code: []gmars.Instruction{{Op: gmars.DAT}}}
+		if rng.Intn(3) == 0 {
+			victim = gmars.WarriorData{Code: []gmars.Instruction{ins(gmars.NOP, gmars.B, gmars.DIRECT, 0, gmars.DIRECT, 0), {Op: gmars.DAT}}}
+		}
+		first := rng.Intn(2) // who is loaded first matters for what "the middle of a cycle" is
+		if first == 0 {
+			c.add(&survivor)
+			c.add(&victim)
+		} else {
+			c.add(&victim)
+			c.add(&survivor)
+		}
+		c.spawn(first, 0)
+		c.spawn(1-first, m/2)
+		for k := 0; k < 12+rng.Intn(12); k++ {
+			c.runCycle(false)
+			if rng.Intn(2) == 0 {
+				c.spawn(1-first, m/2) // respawn the victim (refused while it is alive)
+			}
+			if rng.Intn(9) == 0 {
+				c.disturb(rng)
+			}
+		}
+		c.run()
+		c.getWarrior(first)
+		c.end()
+	}
+	return count
+}
+
+// genRingEdge (battle / api): process limits just above a power of two (64 … 8192, one above
+// 65536 in the thorough tier) and a ring head placed exactly at limit − 2^k, one before and one
+// after, when the queue passes 2^k entries: the boundary case of every grow-in-steps ring buffer
+func genRingEdge(out *bufio.Writer, rng *rand.Rand, tag string, count int, thorough bool) int {
+	for n := 0; n < count; n++ {
+		k := uint(6 + rng.Intn(8)) // 64 … 8192
+		if thorough && n == 0 {
+			k = 16
+		}
+		base := uint64(1) << k
+		p := base + 1 + uint64(rng.Intn(int(base)-1))
+		if rng.Intn(3) == 0 {
+			p = base + base/4 + uint64(rng.Intn(int(base/4)))
+		}
+		// after `nops` single-task cycles a block of SPL 1 grows the queue by one task per cycle:
+		// when it holds 2^k tasks the ring head is at (nops + 2^k − 1) mod 2^k
+		target := (p - base + uint64(rng.Intn(3))) % base // head position wanted: limit − 2^k, +1, +2
+		nops := int((target + 1) % base)
+		if rng.Intn(4) == 0 {
+			nops = int(target)
+		}
+		m := uint64(nops + 60)
+		var code []gmars.Instruction
+		nop := ins(gmars.NOP, gmars.B, gmars.DIRECT, 0, gmars.DIRECT, 0)
+		for i := 0; i < nops; i++ {
+			code = append(code, nop)
+		}
+		if rng.Intn(2) == 0 {
+			for i := 0; i < 20; i++ {
+				code = append(code, ins(gmars.SPL, gmars.B, gmars.DIRECT, 1, gmars.DIRECT, 0))
+			}
+			code = append(code, ins(gmars.JMP, gmars.B, gmars.DIRECT, 0, gmars.DIRECT, 0))
+		} else {
+			code = append(code, ins(gmars.SPL, gmars.B, gmars.DIRECT, 0, gmars.DIRECT, 0), ins(gmars.JMP, gmars.B, gmars.DIRECT, m-1, gmars.DIRECT, 0))
+		}
+		cycles := uint64(nops) + 2*p + base + 50
+		cfg := gmars.SimulatorConfig{Mode: gmars.ICWS94, CoreSize: gmars.Address(m), Processes: gmars.Address(p), Cycles: gmars.Address(cycles),
+			ReadLimit: gmars.Address(m), WriteLimit: gmars.Address(m), Length: 1, Distance: 1}
+		c := newAPICase(out, fmt.Sprintf("re%d", n), tag, cfg, false)
+		w := gmars.WarriorData{Code: code}
+		c.add(&w)
+		c.spawn(0, 0)
+		step := int(p/2) + 1
+		for i := 0; i < int(cycles); i++ {
+			if c.dead {
+				break
+			}
+			c.runCycle(i%step != step-1)
+		}
+		c.runCycle(false)
+		c.end()
+	}
+	return count
+}
+
+// genCounts (api): things that are counted — 65 536 and more resets of one simulator and
+// recorder, 32 769 and more warriors in one simulator (indices past int16), an empty warrior at
+// a non-zero offset, other simulators created while this one is alive
+func genCounts(out *bufio.Writer, rng *rand.Rand, thorough bool) int {
+	n := 0
+	// resets
+	for _, total := range []int{65536, 65537, 131072} {
+		if total > 70000 && !thorough {
+			continue
+		}
+		m := uint64(6 + rng.Intn(6))
+		cfg := gmars.SimulatorConfig{Mode: gmars.ICWS94, CoreSize: gmars.Address(m), Processes: 2, Cycles: 6,
+			ReadLimit: gmars.Address(m), WriteLimit: gmars.Address(m), Length: 1, Distance: 1}
+		c := newAPICase(out, fmt.Sprintf("cn%d", n), "api", cfg, true)
+		w := gmars.WarriorData{Code: []gmars.Instruction{ins(gmars.MOV, gmars.I, gmars.DIRECT, 0, gmars.DIRECT, 1)}}
+		c.add(&w)
+		c.spawn(0, 2)
+		c.runCycle(false)
+		for k := 0; k < total-1; k++ {
+			c.resetQuiet()
+		}
+		c.reset() // every address must read as empty, the warrior is not alive, a spawn is accepted
+		c.getWarrior(0)
+		c.spawn(0, 1)
+		c.runCycle(false)
+		c.end()
+		n++
+	}
+	// warriors
+	{
+		m := uint64(16)
+		cfg := gmars.SimulatorConfig{Mode: gmars.ICWS94, CoreSize: gmars.Address(m), Processes: 2, Cycles: 4,
+			ReadLimit: gmars.Address(m), WriteLimit: gmars.Address(m), Length: 1, Distance: 1}
+		c := newAPICase(out, fmt.Sprintf("cn%d", n), "api", cfg, false)
+		w := gmars.WarriorData{Code: []gmars.Instruction{ins(gmars.MOV, gmars.I, gmars.DIRECT, 0, gmars.DIRECT, 1)}}
+		total := 32770
+		if thorough {
+			total = 65540
+		}
+		for k := 0; k < total; k++ {
+			c.addQuiet(&w)
+		}
+		c.spawn(total-1, 3)
+		c.spawn(32768, 9)
+		c.runCycle(false)
+		c.runCycle(false)
+		c.getWarrior(total - 1)
+		c.end()
+		n++
+	}
+	// empty warriors at every kind of offset
+	for k := 0; k < 6; k++ {
+		b := genBattleSpec(rng, 2)
+		m := uint64(b.cfg.CoreSize)
+		c := newAPICase(out, fmt.Sprintf("cn%d", n), "api", b.cfg, false)
+		empty := gmars.WarriorData{}
+		c.add(&b.warriors[0])
+		c.add(&empty)
+		c.spawn(0, b.offsets[0])
+		c.spawn(1, []uint64{1, m - 1, m, m + 3, uint64(rng.Intn(int(m))), ^uint64(0)}[k])
+		c.runCycle(false)
+		c.run()
+		c.getWarrior(1)
+		c.end()
+		n++
+	}
+	return n
+}
+
+// genLifeCycleBig (api): the life cycles of genLifeCycle on cores of 65 … 1000 cells with
+// placements across the end of the core; after Reset the whole core must read as empty (the
+// observation lists every cell that differs from before)
+func genLifeCycleBig(out *bufio.Writer, rng *rand.Rand, count int) int {
+	for n := 0; n < count; n++ {
+		m := []uint64{65, 100, 127, 128, 129, 200, 256, 257, 300, 800, 1000}[rng.Intn(11)]
+		cfg := gmars.SimulatorConfig{Mode: gmars.ICWS94, CoreSize: gmars.Address(m), Processes: gmars.Address(1 + rng.Intn(6)),
+			Cycles: gmars.Address(5 + rng.Intn(40)), ReadLimit: gmars.Address(m), WriteLimit: gmars.Address(m), Length: 1, Distance: 1}
+		if rng.Intn(2) == 0 {
+			cfg.ReadLimit, cfg.WriteLimit = gmars.Address(limitVal(rng, m)), gmars.Address(limitVal(rng, m))
+		}
+		c := newAPICase(out, fmt.Sprintf("lb%d", n), "api", cfg, rng.Intn(2) == 0)
+		nw := 1 + rng.Intn(3)
+		var ws []gmars.WarriorData
+		for i := 0; i < nw; i++ {
+			ws = append(ws, genWarrior(rng, m, 8))
+		}
+		for i := range ws {
+			c.add(&ws[i])
+		}
+		for round := 0; round < 3; round++ {
+			for i := range ws {
+				off := uint64(rng.Int63n(int64(m)))
+				if rng.Intn(2) == 0 {
+					off = m - 1 - uint64(rng.Intn(5)) // across the end of the core
+				}
+				c.spawn(i, off)
+			}
+			for k := 0; k < 3; k++ {
+				c.runCycle(false)
+			}
+			if rng.Intn(3) == 0 {
+				c.disturb(rng)
+			}
+			c.run()
+			c.reset()
+		}
+		c.end()
+	}
+	return count
+}
